@@ -18,6 +18,9 @@ fn main() {
     }
     util::install_quiet_panic_hook();
     let rest = &args[2..];
+    if util::flag(rest, "--inline") {
+        util::INLINE.store(true, std::sync::atomic::Ordering::Relaxed);
+    }
     let code = match args[1].as_str() {
         "compile" => compile_cmd::run(rest),
         "hir" => hir_cmd::run(rest),
